@@ -279,6 +279,8 @@ pub struct Cl {
     pub joined_late: bool,
     /// per mutate tick: update ticks the delivered messages of that tick wait for
     pub delivered_reqs: BTreeMap<u32, Vec<u32>>,
+    /// every (server entity, pre-spawned client entity) pair registered in this session (never pruned)
+    pub pre_ever: BTreeSet<(Entity, Entity)>,
 }
 
 pub struct Sim {
@@ -301,6 +303,12 @@ pub struct Sim {
     pub dead_hidden: BTreeSet<(usize, Entity)>,
     pub secrets: BTreeMap<Entity, Vec<[u8; 8]>>,
     pub unmarked_once: BTreeSet<Entity>,
+    /// (client, session, server entity): mapped already, to be made visible to its owner later
+    pub pending_show: Vec<(usize, u32, Entity)>,
+    /// entities that were ever the target of a Link (a client may hold a placeholder for them)
+    pub ever_linked: BTreeSet<Entity>,
+    /// entities spawned without the replication marker that never carried it so far
+    pub never_marked: BTreeSet<Entity>,
     pub snaps: BTreeMap<u32, BTreeMap<Entity, Snap>>,
     pub last_tick_seen: u32,
     pub tick_frame: BTreeMap<u32, usize>,
@@ -431,6 +439,7 @@ impl Sim {
                     first_update_checked: false,
                     joined_late: false,
                     delivered_reqs: default(),
+                    pre_ever: default(),
                 }
             })
             .collect();
@@ -451,6 +460,9 @@ impl Sim {
             dead_hidden: default(),
             secrets: default(),
             unmarked_once: default(),
+            pending_show: vec![],
+            ever_linked: default(),
+            never_marked: default(),
             snaps: default(),
             last_tick_seen: 0,
             tick_frame: default(),
@@ -526,6 +538,7 @@ impl Sim {
         c.first_update_checked = false;
         c.joined_late = false;
         c.delivered_reqs.clear();
+        c.pre_ever.clear();
         self.ever_explicit.retain(|(ci, _)| *ci != i);
         self.vis_rec.retain(|(ci, _), _| *ci != i);
         self.dead_hidden.retain(|(ci, _)| *ci != i);
@@ -1046,11 +1059,16 @@ impl Sim {
                 if self.cfg.vis != Vis::All {
                     return None;
                 }
-                let repl: Vec<Entity> = self.alive_marked().into_iter().filter(|t| *t != e).collect();
+                // mostly replicated targets; sometimes an entity that is not replicated (yet): the client
+                // then keeps a bare placeholder for it (documented behaviour, observation O3)
+                let pool = if self.rng.below(4) == 0 { self.alive() } else { self.alive_marked() };
+                let repl: Vec<Entity> = pool.into_iter().filter(|t| *t != e).collect();
                 if repl.is_empty() {
                     return None;
                 }
-                Val::E(repl[self.rng.below(repl.len())])
+                let t = repl[self.rng.below(repl.len())];
+                self.ever_linked.insert(t);
+                Val::E(t)
             }
             _ => Val::U(v),
         })
@@ -1133,7 +1151,7 @@ impl Sim {
         }
         let Some(e) = pick.filter(|_| k >= 2) else {
             // spawn
-            let marked = self.cfg.vis == Vis::All || self.rng.below(6) != 0;
+            let marked = self.rng.below(6) != 0;
             let id = self.server.world_mut().spawn_empty().id();
             self.ents.push(id);
             let mut kinds = vec![];
@@ -1159,12 +1177,18 @@ impl Sim {
             }
             if marked {
                 self.server.world_mut().entity_mut(id).insert(Replicated);
+            } else {
+                self.never_marked.insert(id);
             }
             self.note(format!("spawn {id} marked={marked} kinds={kinds:?}"));
             self.obs.inc("op_spawn");
             return;
         };
         let marked = self.server.world().entity(e).contains::<Replicated>();
+        if self.pending_show.iter().any(|(_, _, x)| *x == e) && matches!(k, 2 | 8 | 9 | 10 | 13) {
+            // R5: an early-mapped entity stays alive, marked and untouched by other visibility ops until shown
+            return;
+        }
         match k {
             2 => {
                 self.unlink_targets(e);
@@ -1231,6 +1255,7 @@ impl Sim {
                     self.server.world_mut().entity_mut(e).remove::<Replicated>();
                 } else {
                     self.server.world_mut().entity_mut(e).insert(Replicated);
+                    self.never_marked.remove(&e);
                     self.remarked.insert(e);
                 }
                 self.mark_struct(e);
@@ -1240,6 +1265,7 @@ impl Sim {
             8 if !marked => {
                 // first-time marking of an entity spawned unmarked
                 self.server.world_mut().entity_mut(e).insert(Replicated);
+                self.never_marked.remove(&e);
                 self.remarked.insert(e);
                 self.mark_struct(e);
                 self.note(format!("mark {e}"));
@@ -1338,16 +1364,45 @@ impl Sim {
         }
         let v = self.rng.below(100000) as u32;
         let pre = self.clients[ci].app.world_mut().spawn_empty().id();
-        let se = self.server.world_mut().spawn((Replicated, Va(v))).id();
-        self.ents.push(se);
-        if self.rng.below(3) == 0 {
-            let s = self.new_secret(se);
-            let mut em = self.server.world_mut().entity_mut(se);
-            insert_kind(&mut em, K_SEC, s);
-        }
+        // the server entity: usually fresh; sometimes an existing entity that starts replicating now
+        // (it may already be referenced by a Link, i.e. the client may hold a placeholder for it)
+        let unmarked: Vec<Entity> = self
+            .alive()
+            .into_iter()
+            .filter(|e| !self.server.world().entity(*e).contains::<Replicated>() && !self.ever_linked.contains(e) && self.never_marked.contains(e))
+            .collect();
+        let adopt = self.cfg.vis == Vis::All && !unmarked.is_empty() && self.rng.below(3) == 0;
+        let se = if adopt {
+            let se = unmarked[self.rng.below(unmarked.len())];
+            self.server.world_mut().entity_mut(se).insert(Replicated);
+            self.never_marked.remove(&se);
+            self.unmarked_once.remove(&se);
+            self.remarked.insert(se);
+            self.mark_struct(se);
+            se
+        } else {
+            let se = self.server.world_mut().spawn((Replicated, Va(v))).id();
+            self.ents.push(se);
+            if self.rng.below(3) == 0 {
+                let s = self.new_secret(se);
+                let mut em = self.server.world_mut().entity_mut(se);
+                insert_kind(&mut em, K_SEC, s);
+            }
+            se
+        };
         self.server.world_mut().get_mut::<ClientEntityMap>(ce).unwrap().insert(se, pre);
-        if self.cfg.vis == Vis::Whitelist {
-            // R5: the owner sees the entity from the tick it is mapped in
+        // C16: the mapping is registered "no later than the tick in which the entity first becomes
+        // visible": either in that tick (R5) or in an earlier one (the entity is shown later)
+        let early = self.cfg.vis != Vis::All && self.rng.below(2) == 0;
+        if early {
+            if self.cfg.vis == Vis::Blacklist {
+                self.server.world_mut().get_mut::<ClientVisibility>(ce).unwrap().set_visibility(se, false);
+                self.vis_rec.insert((ci, se), false);
+                self.ever_explicit.insert((ci, se));
+            }
+            let sess = self.clients[ci].session;
+            self.pending_show.push((ci, sess, se));
+        } else if self.cfg.vis == Vis::Whitelist {
             self.server.world_mut().get_mut::<ClientVisibility>(ce).unwrap().set_visibility(se, true);
             self.vis_rec.insert((ci, se), true);
             self.ever_explicit.insert((ci, se));
@@ -1358,8 +1413,35 @@ impl Sim {
             self.clients[ci].app.world_mut().entity_mut(pre).despawn();
         }
         self.clients[ci].pre.push((se, pre, kill));
-        self.note(format!("prespawn client{ci} {se} -> {pre} killed={kill}"));
+        self.clients[ci].pre_ever.insert((se, pre));
+        self.note(format!("prespawn client{ci} {se} -> {pre} killed={kill} adopt_existing={adopt} shown_later={early}"));
         self.obs.inc("op_prespawn");
+        if early {
+            self.obs.inc("op_prespawn_mapped_before_visible");
+        }
+        if adopt {
+            self.obs.inc("op_prespawn_adopts_existing_entity");
+        }
+    }
+
+    /// Makes one early-mapped entity visible to its owner.
+    pub fn show_pending(&mut self) {
+        if self.pending_show.is_empty() {
+            return;
+        }
+        let i = self.rng.below(self.pending_show.len());
+        let (ci, sess, se) = self.pending_show.remove(i);
+        let Some(ce) = self.clients[ci].ent else { return };
+        if self.clients[ci].session != sess || !self.clients[ci].authorized || self.server.world().get_entity(se).is_err() {
+            return;
+        }
+        self.server.world_mut().get_mut::<ClientVisibility>(ce).unwrap().set_visibility(se, true);
+        self.vis_rec.insert((ci, se), true);
+        self.ever_explicit.insert((ci, se));
+        self.mark_struct(se);
+        self.note(format!("set_vis client{ci} {se} true (early-mapped entity shown)"));
+        self.obs.inc("op_set_visibility");
+        self.check_is_visible("set_visibility");
     }
 
     // --------------------------------------------------------------------------------------------
@@ -1437,6 +1519,9 @@ impl Sim {
             }
             _ => self.junk_ack(),
         }
+        if !self.pending_show.is_empty() && self.rng.below(8) == 0 {
+            self.show_pending();
+        }
         self.service_disconnect_requests();
     }
 
@@ -1465,6 +1550,9 @@ impl Sim {
     pub fn quiesce(&mut self, rounds: usize) {
         self.quiescing = true;
         self.note("quiesce".into());
+        while !self.pending_show.is_empty() {
+            self.show_pending();
+        }
         for i in 0..self.clients.len() {
             self.clients[i].hold_upd = false;
             if self.clients[i].ent.is_none() {
